@@ -805,6 +805,22 @@ func unmarshalBody(fset *token.FileSet, stmts []ast.Stmt, c *jCmd) []jStmt {
 			add(jStmt{Op: "clear", F: m[1]})
 			continue
 		}
+		// c.F = 0 / c.F = [n]types.T{0, …, 0}: an optional field is reset before the word-count test that reads it
+		if m := regexp.MustCompile(`^c\.(\w+) = (0|0x0+)$`).FindStringSubmatch(s); m != nil {
+			if typeWidth(strings.TrimPrefix(fieldType(c, m[1]), "types.")) == 0 {
+				fail(fset, st, "Unmarshal of %s: %s is reset to 0 but is not declared as an integer", c.Name, m[1])
+			}
+			add(jStmt{Op: "zeroInt", F: m[1]})
+			continue
+		}
+		if m := regexp.MustCompile(`^c\.(\w+) = \[(\d+)\](types\.\w+)\{(0(?:, 0)*)\}$`).FindStringSubmatch(s); m != nil {
+			n, _ := strconv.Atoi(m[2])
+			if fieldType(c, m[1]) != fmt.Sprintf("[%d]%s", n, m[3]) || len(strings.Split(m[4], ", ")) != n {
+				fail(fset, st, "Unmarshal of %s: reset of %s does not match its declared type %s", c.Name, m[1], fieldType(c, m[1]))
+			}
+			add(jStmt{Op: "zeroInts", F: m[1], K: n})
+			continue
+		}
 		if m := regexp.MustCompile(`^c\.(\w+) = make\(\[\]types\.\w+, c\.(\w+)\)$`).FindStringSubmatch(s); m != nil {
 			add(jStmt{Op: "makeInts", F: m[1], G: m[2]})
 			continue
@@ -1064,6 +1080,10 @@ func leanStmt(s jStmt, marshal bool) string {
 		return fmt.Sprintf(".%s %s", s.Op, leanExpr(s.E))
 	case "clear":
 		return fmt.Sprintf(".clear %s", q(s.F))
+	case "zeroInt":
+		return fmt.Sprintf(".zeroInt %s", q(s.F))
+	case "zeroInts":
+		return fmt.Sprintf(".zeroInts %s %d", q(s.F), s.K)
 	case "makeInts":
 		return fmt.Sprintf(".makeInts %s %s", q(s.F), q(s.G))
 	case "forCountInt":
